@@ -26,8 +26,20 @@ confirm)
   echo "rc=$rc1"
   echo "== stable tests WITH change (demo files moved aside)"
   mkdir -p /tmp/seed_aside_$id
-  for f in $(ls $seed | grep "_test.go$"); do find . -name "$f" -not -path "./_seed/*" -exec mv {} /tmp/seed_aside_$id/ \; ; done
-  go test -vet=off -count=1 $STABLE 2>&1 | grep -v "no test files\|GNU-stack\|deprecated\|^#" | grep -v "^ok" ; s=${PIPESTATUS[0]}
+  # every untracked *_test.go outside _seed is a demonstration file (a seed never adds test files to the source change)
+  git status --short --untracked-files=all | grep '^??' | awk '{print $2}' | grep "_test.go$" | grep -v "^_seed/" | while read f; do mkdir -p /tmp/seed_aside_$id/$(dirname $f); mv $f /tmp/seed_aside_$id/$f; done
+  go test -vet=off -count=1 $STABLE > /tmp/seed_$id.stable.log 2>&1; s=$?
+  # the airgapped tests use one fixed directory /tmp/airgapped_test: retry while another job holds its lock
+  for k in 1 2 3 4 5 6; do
+    grep -q "resource temporarily unavailable" /tmp/seed_$id.stable.log || break
+    sleep 20
+    go test -vet=off -count=1 ./airgapped/... > /tmp/seed_$id.stable2.log 2>&1; s2=$?
+    if ! grep -q "resource temporarily unavailable" /tmp/seed_$id.stable2.log; then
+      grep -v "airgapped" /tmp/seed_$id.stable.log | grep -q "^FAIL\|^--- FAIL" ; [ $? -eq 0 ] && s=1 || s=$s2
+      cat /tmp/seed_$id.stable2.log >> /tmp/seed_$id.stable.log; break
+    fi
+  done
+  grep -v "no test files\|GNU-stack\|deprecated\|^#\|^ok" /tmp/seed_$id.stable.log | head -20
   echo "stable rc=$s"
   echo "SUMMARY $id: demo_without=$rc0 build=$b demo_with=$rc1 stable=$s"
   ;;
